@@ -19,12 +19,46 @@
          C10_lockset_ok, C10_lockset_ok_nosignal, C10_lockset_exclusions_exact,
          C10_lockset_analysis_sound
 
+   (D) over a second labelled transition system, of the QUERY / REPLY hand-off (model/ConcQuery.v:
+       QueryForeground / QueryBackground / QueryColor, CursorPosition, ClipboardPop, reportWinsize on
+       one side, handleSequence on the other), parametric in a configuration that is re-read from the
+       Go source on every run (channel capacities, non-blocking / timed / blocking sends, the protocol
+       of the cursor-position request flag), for ALL interleavings of any number of querying
+       goroutines, the input goroutine, arriving replies and keys, and timers that may fire at any
+       moment (replies early, while parked, late, never, unsolicited, duplicated):
+         C10_query_cfg_ok                        the translated configuration has the two sound shapes
+         C10_query_parked_reply                  a reply handled while the caller is parked: exactly it
+         C10_query_early_reply                   ... handled BEFORE the caller's receive: exactly it
+         C10_colour_query_no_loss                no reply dropped, FIFO, a blocked caller = a reply not
+                                                 yet arrived (guard: honest terminal, <= cap callers)
+         C10_query_unbuffered_no_stale           rendezvous kinds keep nothing beyond the offer
+         C10_query_no_lost_key, C10_query_consumed_only_while_outstanding, C10_query_keys_conserved
+         C10_query_handler_progress, C10_query_handler_rank   bounded offers only
+         C10_query_model_satisfies_property      the model's run of every scenario of <= 3 actions
+                                                 satisfies the predicate evaluated on the implementation
+       with the refuted statements kept beside them:
+         C10_stale_colour_reply_refuted          finding key stale-colour-reply
+         C10_colour_concurrent_queries_refuted   finding key colour-query-concurrent
+         C10_cpr_rearm_race_refuted              finding key cpr-rearm-race
+         C10_colour_unbuffered_refuted, C10_clipboard_nonblocking_refuted,
+         C10_clipboard_buffered_refuted, C10_cpr_flag_sticky_refuted   each clause of qcfg_ok is needed
+
+   (F) a goroutine that posts while holding a mutex the main goroutine takes (widgets/spinner:
+       ticker goroutine vs Draw), model/ConcLock.v, the kind of post being read from the translated
+       table posts_under_lock:
+         C10_no_blocking_post_under_lock, C10_lock_progress   (every queue size, fill level, schedule)
+         C10_lock_blocking_refuted                            (why the post must not be the blocking one)
+
    NOT proved (stated in the evidence): that the syntactic table is what the compiler and the
    runtime execute; termination under an unfair scheduler (the theorem gives: no deadlock
    and a bound on the work of the handshake, i.e. termination under weak fairness); the
-   10 ms ESC timer and the 50/100 ms query timeouts (time is not modelled; C08 covers the
-   timer); signals; console EOF; several parser generations alive at once. *)
-From Vx Require Import base.Prelude gen.GenAccess model.Conc proofs.ConcProofs.
+   10 ms ESC timer and the values of the 10/50/100 ms query timeouts (time is not modelled: in
+   (D) a timer may fire at any moment, and the early-reply theorem is stated for the runs in
+   which the offer's timer does not fire before the caller reaches its receive; C08 covers the
+   ESC timer); signals; console EOF; several parser generations alive at once; the two LTSs are
+   not composed (in (D) the delivery of a decoded key never blocks; the full event queue is (B)). *)
+From Vx Require Import base.Prelude gen.GenAccess model.Conc proofs.ConcProofs model.ConcQuery proofs.ConcQueryProofs
+  model.ConcLock proofs.ConcLockProofs.
 From Coq Require String.
 Import String.StringSyntax.
 
@@ -207,8 +241,268 @@ Proof. exact (conj roles_closed_full (conj locks_sound_full (conj roles_closed_n
 Print Assumptions C10_lockset_analysis_sound.
 
 (* ---------------------------------------------------------------------------------- *)
+(* (D) terminal queries                                                                 *)
+(* ---------------------------------------------------------------------------------- *)
+
+(* The facts the model is instantiated with are translated from the Go AST on every run
+   (GenAccess.v: chan_caps, chan_ops and the cpr facts).  This says: each of the six reply channels is
+   made once with a literal capacity, sent on by handleSequence only and received from by its query
+   function only; the three colour channels and the size channel are buffered (>= 1) with a
+   non-blocking send; the cursor-position and clipboard channels are unbuffered with a timed offer;
+   no send can block without bound; CursorPosition sets the request flag before it writes the query
+   and clears it on its time-out branch, and the handler clears it (before or after its send). *)
+Theorem C10_query_cfg_ok : qcfg_ok gen_qcfg = true.
+Proof. exact gen_qcfg_ok. Qed.
+Print Assumptions C10_query_cfg_ok.
+
+(* A reply that is handled while a caller is parked in its receive goes to exactly that caller
+   (the first one parked), with exactly its payload.  Any configuration. *)
+Theorem C10_query_parked_reply : forall (c : qcfg) (n : nat) (s : qstate) (k : kind) (v : Z) (r : list hop) (g : nat) (w : list nat),
+  qreach c n s -> hp s = HRun (HSend k v :: r) -> wait s k = g :: w ->
+  exists s', qstep c LH s = Some s' /\ qget s' g = QPost k (qpost c k true) (Some v) /\ wait s' k = w /\ rets s' k = rets s k ++ [v].
+Proof. intros c n s k v r g w R. apply parked_gets_reply. eapply chan_inv_reach; exact R. Qed.
+Print Assumptions C10_query_parked_reply.
+
+(* EARLY replies.  The reply is handled while no caller is parked and nothing older is waiting on the
+   channel (the caller is still between the write of its query and its receive).  With one of the two
+   sound shapes (buffer + non-blocking send, or unbuffered + timed offer) the reply is kept — not
+   dropped — and along every continuation in which the offer's timer does not fire and no other
+   goroutine receives on that channel, ANY caller that then reaches its receive returns exactly v,
+   at once (its step is enabled: no deadlock). *)
+Theorem C10_query_early_reply : forall (c : qcfg) (n : nat) (s : qstate) (k : kind) (v : Z) (r : list hop),
+  kcfg_ok (q_k c k) = true -> qreach c n s ->
+  hp s = HRun (HSend k v :: r) -> wait s k = [] -> avail k s = [] ->
+  exists s1, qstep c LH s = Some s1 /\ avail k s1 = [v] /\ dropped s1 k = dropped s k /\
+    forall tr s2, qrun_all c (quiet_at k) tr s1 = true -> qrun c tr s1 = Some s2 ->
+      forall g ops, qget s2 g = QRun k (OSelect :: ops) ->
+        exists s3, qstep c (LQ g) s2 = Some s3 /\ qget s3 g = QPost k (qpost c k true) (Some v).
+Proof. exact early_reply_delivered. Qed.
+Print Assumptions C10_query_early_reply.
+
+(* The colour queries (buffer, non-blocking send, receive without a timer), on every run on which the
+   terminal is honest about kind k (no unsolicited or duplicated report: when a reply is handled, fewer
+   replies have been handled than queries written) and at most cap(k) callers are between their write
+   and the end of their receive:  no reply is ever dropped; the callers receive the replies in the order
+   of arrival, none skipped; and a caller that is blocked in its receive is blocked only because fewer
+   replies have arrived than queries were written (deadlock-freedom of the hand-off).  Both guards are
+   needed: see the two refutations below. *)
+Theorem C10_colour_query_no_loss : forall (c : qcfg) (n : nat) (k : kind) (tr : list qlabel) (s : qstate),
+  k_snd (q_k c k) = SNonblock -> k_rcv (q_k c k) = RBlock ->
+  qrun c tr (qinit n) = Some s -> qrun_all c (colour_hyp c k) tr (qinit n) = true ->
+  dropped s k = [] /\ handled s k = rets s k ++ buf s k /\
+  (forall g, qget s g = QParked k -> buf s k = [] /\ (List.length (handled s k) < nwr s k)%nat).
+Proof. intros c n k tr s Hs Hr. exact (colour_no_loss c n k Hs Hr tr s). Qed.
+Print Assumptions C10_colour_query_no_loss.
+
+(* Rendezvous kinds (capacity 0: cursor position, clipboard) keep nothing: whenever a caller's list of
+   received values grows by v, the handler is at that very step blocked offering v or performing the
+   send of v.  A reply whose offer has ended (late, unsolicited, duplicated) can therefore never be
+   returned by a LATER query.  Any interleaving, any timing. *)
+Theorem C10_query_unbuffered_no_stale : forall (c : qcfg) (n : nat) (s : qstate) (l : qlabel) (s' : qstate) (k : kind),
+  qreach c n s -> cap c k = O -> qstep c l s = Some s' ->
+  rets s' k = rets s k \/
+  exists v, rets s' k = rets s k ++ [v] /\ ((exists r, hp s = HOffer k v r) \/ (exists r, hp s = HRun (HSend k v :: r))).
+Proof. intros c n s l s' k R. apply unbuffered_no_stale. eapply chan_inv_reach; exact R. Qed.
+Print Assumptions C10_query_unbuffered_no_stale.
+
+(* NO LOST INPUT.  With the flag protocol of flag_ok, on every run without the re-arm race (guard
+   no_rearm_at, see C10_cpr_rearm_race_refuted): a CSI ... R sequence is taken for a cursor position
+   report only in a state in which a CursorPosition call is outstanding ... *)
+Theorem C10_query_consumed_only_while_outstanding : forall (c : qcfg) (n : nat) (tr : list qlabel) (s : qstate) (l : qlabel) (s' : qstate),
+  flag_ok c = true -> k_cap (q_k c KCpr) = O ->
+  qrun c tr (qinit n) = Some s -> qrun_all c no_rearm_at tr (qinit n) = true ->
+  qstep c l s = Some s' -> consumed s' = consumed s \/ any_outstanding KCpr s = true.
+Proof. intros c n tr s l s' Hf Hc. exact (consumed_only_while_outstanding c n Hf Hc tr s l s'). Qed.
+Print Assumptions C10_query_consumed_only_while_outstanding.
+
+(* ... so after ANY history in which no query is outstanding any more (all answered or timed out), the
+   next key — Shift+F3 in its legacy encoding CSI 1;2 R and plain CSI R included — is delivered as a
+   key event, and nothing is left behind. *)
+Theorem C10_query_no_lost_key : forall (c : qcfg) (n : nat) (tr : list qlabel) (s : qstate) (x : seq) (rest : list seq),
+  flag_ok c = true -> k_cap (q_k c KCpr) = O ->
+  qrun c tr (qinit n) = Some s -> qrun_all c no_rearm_at tr (qinit n) = true ->
+  any_outstanding KCpr s = false -> hp s = HRun [] -> inq s = x :: rest ->
+  is_plain_key x || is_r x = true ->
+  exists s', qstep c LH s = Some s' /\ out s' = out s ++ [x] /\ consumed s' = consumed s /\ hp s' = HRun [] /\ inq s' = rest.
+Proof. intros c n tr s x rest Hf Hc. exact (no_lost_key c n Hf Hc tr s x rest). Qed.
+Print Assumptions C10_query_no_lost_key.
+
+(* Keys other than CSI ... R are never lost, duplicated or reordered by anything the queries do:
+   delivered ++ still queued = everything the terminal sent.  Any configuration, any run. *)
+Theorem C10_query_keys_conserved : forall (c : qcfg) (n : nat) (tr : list qlabel) (s : qstate),
+  qrun c tr (qinit n) = Some s ->
+  filter is_plain_key (out s) ++ filter is_plain_key (inq s) = arrived_keys tr.
+Proof. intros c n tr s H. rewrite (keys_conserved c tr _ _ H). reflexivity. Qed.
+Print Assumptions C10_query_keys_conserved.
+
+(* The input goroutine is never blocked by a reply for longer than a bounded offer: whenever it has
+   anything to do, its own next step or the timer of its offer is enabled; and each of its steps
+   decreases a ranking function (at most ten steps per incoming sequence). *)
+Theorem C10_query_handler_progress : forall (c : qcfg) (n : nat) (s : qstate),
+  qcfg_ok c = true -> qreach c n s ->
+  (hp s <> HRun [] \/ inq s <> []) -> qenabled c LH s = true \/ qenabled c LHTimeout s = true.
+Proof.
+  intros c n s Hok R. apply handler_progress; [eapply chan_inv_reach; exact R|].
+  intros k. unfold qcfg_ok in Hok. apply Bool.andb_true_iff in Hok. destruct Hok as [Hk _].
+  rewrite forallb_forall in Hk. apply Hk. destruct k; simpl; tauto.
+Qed.
+Print Assumptions C10_query_handler_progress.
+
+Theorem C10_query_handler_rank : forall (c : qcfg) (s : qstate) (l : qlabel) (s' : qstate),
+  (l = LH \/ l = LHTimeout) -> qstep c l s = Some s' -> (hrank s' < hrank s)%nat.
+Proof. exact handler_rank. Qed.
+Print Assumptions C10_query_handler_rank.
+
+(* The tie to the differential run: the property predicate that the harness evaluates on the
+   implementation's observations (query_violation: a decidable statement on one scenario and its
+   observation, independent of the model) holds of the model's own run of EVERY scenario of at most
+   three actions over the alphabet (12720 scenarios: each query kind early / prompt / never, a reply of
+   each kind at rest, the three sorts of key).  Bound in the statement; closed by vm_compute. *)
+Theorem C10_query_model_satisfies_property :
+  forallb (fun sc => negb (query_violation (sc, exec_scn gen_qcfg sc))) (scenarios 3 0) = true.
+Proof. exact model_satisfies_property_3. Qed.
+Print Assumptions C10_query_model_satisfies_property.
+
+(* REFUTED on the unchanged code (proposed finding stale-colour-reply): clause "a reply nobody waits for
+   is not handed to a later query" fails for the buffered colour channels.  An OSC 11 report that arrives
+   while no QueryBackground is outstanding (no query written yet) is kept in the one-slot buffer; the next
+   QueryBackground returns it at once — its own answer 8 has not even arrived — and that answer is
+   parked for the query after it (every later query is one behind).  The guarded predicate excludes
+   exactly this class (query_known); the unguarded one fails on the model's run. *)
+Theorem C10_stale_colour_reply_refuted :
+  (exists s1 s2,
+    qrun gen_qcfg [LArrive (SReply KBg 7); LH; LH] (qinit 1) = Some s1 /\ nwr s1 KBg = O /\ handled s1 KBg = [7] /\
+    qrun gen_qcfg [LCall 0 KBg; LQ 0; LQ 0; LArrive (SReply KBg 8); LH; LH] s1 = Some s2 /\
+    qget s2 0 = QPost KBg [] (Some 7) /\ dropped s2 KBg = [] /\ buf s2 KBg = [8] /\ hp s2 = HRun [])
+  /\ query_violation_all ([AReply KBg 301; AQuery KBg 0 302], exec_scn gen_qcfg [AReply KBg 301; AQuery KBg 0 302]) = true
+  /\ query_known ([AReply KBg 301; AQuery KBg 0 302], []) = true.
+Proof. exact (conj stale_colour_reply_witness model_violates_unguarded). Qed.
+Print Assumptions C10_stale_colour_reply_refuted.
+
+(* REFUTED on the unchanged code (proposed finding colour-query-concurrent): "any number of goroutines may
+   issue terminal queries without deadlock" fails for two concurrent QueryBackground calls.  Both have
+   written their query and neither has reached its receive when the two answers are handled: the second
+   answer finds the slot taken and is dropped by the non-blocking send.  One caller gets its colour, the
+   other stays blocked although both answers arrived, and no goroutine of the library can move. *)
+Theorem C10_colour_concurrent_queries_refuted :
+  exists s,
+    qrun gen_qcfg [LCall 0 KBg; LCall 1 KBg; LQ 0; LQ 1; LArrive (SReply KBg 1); LArrive (SReply KBg 2); LH; LH; LH; LH; LQ 0; LQ 1] (qinit 2) = Some s /\
+    qget s 0 = QPost KBg [] (Some 1) /\ qget s 1 = QParked KBg /\ nwr s KBg = 2%nat /\ handled s KBg = [1; 2] /\ dropped s KBg = [2] /\
+    inq s = [] /\ stuck gen_qcfg s 1 = true.
+Proof. exact colour_two_queriers_witness. Qed.
+Print Assumptions C10_colour_concurrent_queries_refuted.
+
+(* REFUTED on the unchanged code (proposed finding cpr-rearm-race): without the guard no_rearm_at the
+   no-lost-input theorem fails.  The handler has tested the flag for a report that belongs to a query
+   which then times out; the next CursorPosition call sets the flag before the handler's send; the send
+   hands the old report to the new call; the flag stays set with no call outstanding and the next
+   Shift+F3 (CSI 1;2 R) is swallowed. *)
+Theorem C10_cpr_rearm_race_refuted :
+  exists s s',
+    qrun gen_qcfg rearm_trace (qinit 1) = Some s /\ qrun_all gen_qcfg no_rearm_at rearm_trace (qinit 1) = false /\
+    any_outstanding KCpr s = false /\ hp s = HRun [] /\ inq s = [SR true 258] /\ flag s = true /\
+    qstep gen_qcfg LH s = Some s' /\ out s' = [] /\ consumed s' = [SR true 300; SR true 258].
+Proof. exact cpr_rearm_race_witness. Qed.
+Print Assumptions C10_cpr_rearm_race_refuted.
+
+(* Each clause of qcfg_ok is needed (these are the configurations of seeded changes): *)
+(* ... a non-blocking send on an UNBUFFERED colour channel drops the early reply; the caller is stuck *)
+Theorem C10_colour_unbuffered_refuted :
+  kcfg_ok (q_k cfg_colour_unbuffered KBg) = false /\
+  exists s, qrun cfg_colour_unbuffered [LCall 0 KBg; LQ 0; LArrive (SReply KBg 7); LH; LH; LQ 0] (qinit 1) = Some s /\
+            qget s 0 = QParked KBg /\ handled s KBg = [7] /\ dropped s KBg = [7] /\ stuck cfg_colour_unbuffered s 0 = true.
+Proof. exact colour_unbuffered_witness. Qed.
+Print Assumptions C10_colour_unbuffered_refuted.
+
+(* ... a non-blocking send of the clipboard reply loses the early reply; ClipboardPop waits out its deadline *)
+Theorem C10_clipboard_nonblocking_refuted :
+  kcfg_ok (q_k cfg_clip_nonblocking KClip) = false /\
+  exists s s', qrun cfg_clip_nonblocking [LCall 0 KClip; LQ 0; LArrive (SReply KClip 7); LH; LH; LQ 0] (qinit 1) = Some s /\
+            qget s 0 = QParked KClip /\ dropped s KClip = [7] /\ qenabled cfg_clip_nonblocking LH s = false /\
+            qstep cfg_clip_nonblocking (LQTimeout 0) s = Some s' /\ qget s' 0 = QPost KClip [] None.
+Proof. exact clipboard_nonblocking_witness. Qed.
+Print Assumptions C10_clipboard_nonblocking_refuted.
+
+(* ... a BUFFERED clipboard channel keeps an unsolicited report beyond the offer and returns it later *)
+Theorem C10_clipboard_buffered_refuted :
+  kcfg_ok (q_k cfg_clip_buffered KClip) = false /\
+  exists s, qrun cfg_clip_buffered [LArrive (SReply KClip 5); LH; LH; LArrive (SKey 1); LH; LCall 0 KClip; LQ 0; LQ 0] (qinit 1) = Some s /\
+            out s = [SKey 1] /\ qget s 0 = QPost KClip [] (Some 5).
+Proof. exact clipboard_buffered_witness. Qed.
+Print Assumptions C10_clipboard_buffered_refuted.
+
+(* ... a flag that the time-out branch does not clear swallows the next CSI 1;2 R, with no race involved *)
+Theorem C10_cpr_flag_sticky_refuted :
+  flag_ok cfg_flag_sticky = false /\
+  exists s s', qrun cfg_flag_sticky sticky_trace (qinit 1) = Some s /\ qrun_all cfg_flag_sticky no_rearm_at sticky_trace (qinit 1) = true /\
+            qget s 0 = QPost KCpr [] None /\ any_outstanding KCpr s = false /\
+            qstep cfg_flag_sticky LH s = Some s' /\ out s' = [] /\ consumed s' = [SR true 258].
+Proof. exact cpr_flag_sticky_witness. Qed.
+Print Assumptions C10_cpr_flag_sticky_refuted.
+
+(* ---------------------------------------------------------------------------------- *)
+(* (F) posting under a mutex that the main goroutine takes                              *)
+(* ---------------------------------------------------------------------------------- *)
+
+(* The table of every PostEvent / PostEventBlocking / SyncFunc call made while a mutex is held
+   syntactically in the same function body (translated from every non-test file of the module outside
+   cmd/ on every run; today one entry: the spinner's ticker goroutine under m.mu) contains no blocking
+   post. *)
+Theorem C10_no_blocking_post_under_lock : gen_blocking_under_lock = false.
+Proof. exact gen_no_blocking_under_lock. Qed.
+Print Assumptions C10_no_blocking_post_under_lock.
+
+(* With a non-blocking post under the mutex: in every reachable state — every queue capacity N, every
+   fill level, every interleaving of the worker, other posters, and the main goroutine polling or
+   drawing — a main goroutine that waits for the mutex in Draw can take it at once or after the worker's
+   next step, which is enabled whatever the state of the queue; inside Draw it can always return. *)
+Theorem C10_lock_progress : forall (N : nat) (s : lstate), lreach N false s ->
+  (ldr s = DWant ->
+     (exists s', lstep N false LDLock s = Some s' /\ ldr s' = DIn) \/
+     (exists s1 s2, lstep N false LWPost s = Some s1 /\ lstep N false LDLock s1 = Some s2 /\ ldr s2 = DIn)) /\
+  (ldr s = DIn -> exists s', lstep N false LDUnlock s = Some s' /\ ldr s' = DPoll).
+Proof. exact lock_progress. Qed.
+Print Assumptions C10_lock_progress.
+
+(* REFUTED for a blocking post under the mutex (the configuration of a seeded change): for every queue
+   capacity the state "queue full, worker waiting for room with the mutex held, main waiting for the mutex
+   in Draw" is reachable, no step of anybody is enabled in it, and Draw never returns. *)
+Theorem C10_lock_blocking_refuted : forall N : nat,
+  exists s, lrun N true (repeat LFill N ++ [LTick; LDraw]) linit = Some s /\ ldr s = DWant /\
+            (forall l, lstep N true l s = None) /\
+            (forall tr s', lrun N true tr s = Some s' -> ldr s' = DWant).
+Proof. exact lock_blocking_refuted. Qed.
+Print Assumptions C10_lock_blocking_refuted.
+
+(* ---------------------------------------------------------------------------------- *)
 (* non-vacuity                                                                          *)
 (* ---------------------------------------------------------------------------------- *)
+
+(* a reachable state in which main waits for the mutex while the worker holds it, the queue being full *)
+Example C10_lock_example :
+  exists s, lrun 2 false [LFill; LFill; LTick; LDraw] linit = Some s /\ ldr s = DWant /\ lwk s = WHold /\ lqn s = 2%nat
+            /\ lock_exec 2 false = true /\ lock_exec 2 true = false.
+Proof. eexists. split; [vm_compute; reflexivity|]. vm_compute. repeat split; reflexivity. Qed.
+
+(* the hypotheses of the query theorems are satisfiable on the translated configuration: a state in
+   which the handler is about to send an early reply (C10_query_early_reply), a run that satisfies the
+   honesty / concurrency guard and the no-re-arm guard and ends at rest with a key to deliver, and the
+   channel shapes of C10_colour_query_no_loss *)
+Example C10_query_examples :
+  (exists s, qrun gen_qcfg [LCall 0 KClip; LQ 0; LArrive (SReply KClip 9); LH] (qinit 1) = Some s
+             /\ hp s = HRun [HSend KClip 9] /\ wait s KClip = [] /\ avail KClip s = [] /\ kcfg_ok (q_k gen_qcfg KClip) = true)
+  /\ (let tr := [LCall 0 KBg; LQ 0; LArrive (SReply KBg 5); LH; LH; LQ 0;
+                 LCall 0 KCpr; LQ 0; LQ 0; LQ 0; LQTimeout 0; LQ 0; LArrive (SR true 258)]%nat in
+      qrun_all gen_qcfg (colour_hyp gen_qcfg KBg) tr (qinit 1) = true /\ qrun_all gen_qcfg no_rearm_at tr (qinit 1) = true
+      /\ exists s, qrun gen_qcfg tr (qinit 1) = Some s /\ any_outstanding KCpr s = false /\ hp s = HRun [] /\ inq s = [SR true 258]
+                   /\ qget s 0 = QPost KCpr [] None /\ rets s KBg = [5])
+  /\ k_snd (q_k gen_qcfg KBg) = SNonblock /\ k_rcv (q_k gen_qcfg KBg) = RBlock
+  /\ flag_ok gen_qcfg = true /\ k_cap (q_k gen_qcfg KCpr) = O /\ cap gen_qcfg KClip = O.
+Proof.
+  split; [eexists; split; [vm_compute; reflexivity|vm_compute; repeat split; reflexivity]|].
+  split; [vm_compute; split; [reflexivity|split; [reflexivity|eexists; repeat split; reflexivity]]|].
+  vm_compute. repeat split; reflexivity.
+Qed.
 
 Definition ex_script : nat -> list post := script_of [[(true, 10); (false, 11); (true, 12)]; [(false, 20); (false, 21)]].
 
